@@ -196,6 +196,11 @@ func parseGenbankFEATURES(field genbankField) []GenbankFeature {
 
 			keyBuffer = make([]rune, 0)
 			valueBuffer = make([]rune, 0)
+
+		} else if gb.Info != nil && len(keyBuffer) == 0 {
+
+			// a location too long for one line continues on the next, before the first qualifier
+			gb.Location.Representation += strings.TrimSpace(line)
 		}
 	}
 
